@@ -6,7 +6,9 @@ import (
 	"fmt"
 	"go/constant"
 	"go/types"
+	"hash/fnv"
 	"math/big"
+	"sort"
 	"strconv"
 	"strings"
 
@@ -23,6 +25,7 @@ type Env struct {
 	results []Value
 	resTup  *types.Tuple
 	depth   int
+	cur     *State // the current state while compiling inside old(...)
 }
 
 func (e *Env) with(name string, v Value) *Env {
@@ -384,6 +387,11 @@ func (env *Env) fieldOf(x Value, name string, e *Expr) Value {
 		} else {
 			loc = &Loc{Kind: LRef, Ref: x.one(), Keys: refKeys(p.Elem()), Off: off, T: st.Field(idx).Type()}
 		}
+		if x.St != nil {
+			v := env.ex.readLoc(x.St, loc)
+			v.St = x.St
+			return v
+		}
 		return env.typed(env.ex.readLoc(env.st, loc))
 	}
 	if st, ok := t.Underlying().(*types.Struct); ok {
@@ -434,6 +442,11 @@ func (env *Env) indexExpr(e *Expr) Value {
 	switch xt := x.T.Underlying().(type) {
 	case *types.Slice:
 		loc := &Loc{Kind: LElem, Ref: x.C[0], Idx: Idx(x.C[1], i.one()), Keys: elemKeys(xt.Elem()), T: xt.Elem()}
+		if x.St != nil {
+			v := env.ex.readLoc(x.St, loc)
+			v.St = x.St
+			return v
+		}
 		return env.typed(env.ex.readLoc(env.st, loc))
 	case *types.Map:
 		if mapKeySort(xt) == nil {
@@ -481,9 +494,7 @@ func (env *Env) binary(e *Expr, pol int) Value {
 		b := env.compile(e.Args[1], pol)
 		return boolVal(Implies(a.one(), b.one()))
 	case "<==>":
-		a := env.compile(e.Args[0], 0)
-		b := env.compile(e.Args[1], 0)
-		return boolVal(Eq(a.one(), b.one()))
+		return env.iff(e, pol)
 	case "&&":
 		a := env.compile(e.Args[0], pol)
 		b := env.compile(e.Args[1], pol)
@@ -495,6 +506,15 @@ func (env *Env) binary(e *Expr, pol int) Value {
 	}
 	a := env.compile(e.Args[0], 0)
 	b := env.compile(e.Args[1], 0)
+	if (e.Op == "==" || e.Op == "!=") && pol != 0 && len(a.C) == 1 && len(b.C) == 1 && a.C[0].Sort == BoolSort && b.C[0].Sort == BoolSort {
+		memo := map[*Term]bool{}
+		if hasQuantifier(a.C[0], memo) || hasQuantifier(b.C[0], memo) {
+			if e.Op == "==" {
+				return env.iff(e, pol)
+			}
+			return boolVal(Not(env.iff(e, -pol).one()))
+		}
+	}
 	switch e.Op {
 	case "==", "!=":
 		// comparison of a slice with nil: the nil slice has a nil base
@@ -566,13 +586,13 @@ func (env *Env) binary(e *Expr, pol int) Value {
 		case ">=":
 			return boolVal(mk("fp.geq", BoolSort, x, y))
 		case "+":
-			return Value{T: rt, C: []*Term{mk("fp.add", F64Sort, x, y)}}
+			return Value{T: rt, C: []*Term{F64Arith("add", x, y)}}
 		case "-":
-			return Value{T: rt, C: []*Term{mk("fp.sub", F64Sort, x, y)}}
+			return Value{T: rt, C: []*Term{F64Arith("sub", x, y)}}
 		case "*":
-			return Value{T: rt, C: []*Term{mk("fp.mul", F64Sort, x, y)}}
+			return Value{T: rt, C: []*Term{F64Arith("mul", x, y)}}
 		case "/":
-			return Value{T: rt, C: []*Term{mk("fp.div", F64Sort, x, y)}}
+			return Value{T: rt, C: []*Term{F64Arith("div", x, y)}}
 		}
 	case StrSort:
 		switch e.Op {
@@ -590,6 +610,23 @@ func (env *Env) binary(e *Expr, pol int) Value {
 	}
 	cfail("%s: operator %s not supported on %s", e, e.Op, x.Sort)
 	return Value{}
+}
+
+// iff compiles A <==> B as two implications so that quantifiers inside keep a definite polarity.
+func (env *Env) iff(e *Expr, pol int) Value {
+	if pol == 0 {
+		a := env.compile(e.Args[0], 0)
+		b := env.compile(e.Args[1], 0)
+		return boolVal(Eq(a.one(), b.one()))
+	}
+	a1 := env.compile(e.Args[0], -pol).one()
+	b1 := env.compile(e.Args[1], pol).one()
+	b2 := env.compile(e.Args[1], -pol).one()
+	a2 := env.compile(e.Args[0], pol).one()
+	if a1 == a2 && b1 == b2 {
+		return boolVal(Eq(a1, b1))
+	}
+	return boolVal(And(Implies(a1, b1), Implies(b2, a2)))
 }
 
 func (env *Env) resolveType(name string) types.Type {
@@ -704,7 +741,7 @@ func choosePatterns(bound []*Term, body *Term) [][]*Term {
 		if t.Op == "forall" || t.Op == "exists" {
 			return
 		}
-		if (t.Op == "select" || t.Op == "uf") && len(mentions(t)) > 0 {
+		if (t.Op == "select" || t.Op == "uf") && len(mentions(t)) > 0 && structural(t) {
 			// usable only if free of interpreted arithmetic at the top of the bound occurrence? keep simple
 			cands = append(cands, t)
 		}
@@ -768,6 +805,21 @@ func choosePatterns(bound []*Term, body *Term) [][]*Term {
 	return pats
 }
 
+// structural: usable inside a trigger (no logical connectives, arithmetic or comparisons)
+func structural(t *Term) bool {
+	switch t.Op {
+	case "bound", "const", "int", "uf", "select", "store", "fplit", "fpconst", "true", "false", "fp.add", "fp.sub", "fp.mul", "fp.div", "fp.rti", "fp.neg", "fp.abs":
+	default:
+		return false
+	}
+	for _, a := range t.Args {
+		if !structural(a) {
+			return false
+		}
+	}
+	return true
+}
+
 func containsTerm(t, sub *Term) bool {
 	if t == sub {
 		return true
@@ -786,6 +838,13 @@ func (env *Env) callExpr(e *Expr, pol int) Value {
 		// pkg.Func(...) or x.Method(...)
 		if _, isVar := env.vars[e.X.X.Name]; !isVar {
 			if p := env.findPackage(e.X.X.Name); p != nil {
+				if sf, ok := env.ex.eng.contracts.Specs[e.X.Name]; ok && sf.Pkg == p.Name() {
+					var args []Value
+					for _, a := range e.Args {
+						args = append(args, env.compile(a, 0))
+					}
+					return env.specCall(sf, args, pol)
+				}
 				return env.goCall(p, e.X.Name, nil, e)
 			}
 		}
@@ -799,7 +858,27 @@ func (env *Env) callExpr(e *Expr, pol int) Value {
 		if env.old == nil {
 			cfail("old() used where no pre-state exists")
 		}
-		return env.inState(env.old).compile(e.Args[0], pol)
+		n := env.inState(env.old)
+		if n.cur == nil {
+			n.cur = env.st
+		}
+		return n.compile(e.Args[0], pol)
+	case "now":
+		if env.cur == nil {
+			return env.compile(e.Args[0], pol)
+		}
+		return env.inState(env.cur).compile(e.Args[0], pol)
+	case "proj":
+		x := env.compile(e.Args[0], 0)
+		k := env.compile(e.Args[1], 0).one()
+		tt, ok := x.T.(*types.Tuple)
+		if !ok || k.Op != "int" {
+			cfail("%s: proj needs a tuple and a literal index", e)
+		}
+		idx := int(k.Int.Int64())
+		off := tupleOffset(tt, idx)
+		n := len(layout(tt.At(idx).Type()))
+		return Value{T: tt.At(idx).Type(), C: x.C[off : off+n]}
 	case "len", "cap":
 		x := env.compile(e.Args[0], 0)
 		switch xt := x.T.Underlying().(type) {
@@ -848,7 +927,10 @@ func (env *Env) callExpr(e *Expr, pol int) Value {
 		t := env.resolveType(e.Args[1].Name)
 		switch t.Underlying().(type) {
 		case *types.Pointer, *types.Interface, *types.Map, *types.Signature:
-			return Value{T: t, C: []*Term{x.one()}}
+			return Value{T: t, C: []*Term{x.one()}, St: x.St}
+		}
+		if x.St != nil {
+			return env.ex.readLoc(x.St, &Loc{Kind: LRef, Ref: x.one(), Keys: refKeys(t), T: t})
 		}
 		return env.ex.readLoc(env.st, &Loc{Kind: LRef, Ref: x.one(), Keys: refKeys(t), T: t})
 	case "dyntype":
@@ -905,6 +987,21 @@ func (env *Env) callExpr(e *Expr, pol int) Value {
 			return intVal(Ite(Le(a, b), a, b))
 		}
 		return intVal(Ite(Ge(a, b), a, b))
+	case "same":
+		// identity of values (for floats: the same datum, so NaN is the same as NaN), unlike Go's ==
+		a := env.compile(e.Args[0], 0)
+		b := env.compile(e.Args[1], 0)
+		if len(a.C) != len(b.C) {
+			cfail("%s: operands differ in shape", e)
+		}
+		var cs []*Term
+		for j := range a.C {
+			if a.C[j].Sort != b.C[j].Sort {
+				cfail("%s: operands differ in sort", e)
+			}
+			cs = append(cs, Eq(a.C[j], b.C[j]))
+		}
+		return boolVal(And(cs...))
 	case "sameslice":
 		a := env.compile(e.Args[0], 0)
 		b := env.compile(e.Args[1], 0)
@@ -930,6 +1027,9 @@ func (env *Env) specCall(sf *SpecFunc, args []Value, pol int) Value {
 	}
 	eng := env.ex.eng
 	specPkg := eng.pkgByName[sf.Pkg]
+	if sf.Body != nil && sf.Opaque && !env.ex.reveal[sf.Name] {
+		return env.opaqueCall(sf, args, specPkg)
+	}
 	if sf.Body != nil {
 		if env.depth > 20 {
 			cfail("spec %s: expansion too deep (recursive definitions must be uninterpreted with axioms)", sf.Name)
@@ -975,6 +1075,43 @@ func (env *Env) specCall(sf *SpecFunc, args []Value, pol int) Value {
 			}
 		}
 		flat = append(flat, a.C...)
+	}
+	rl := layout(rt)
+	out := Value{T: rt, C: make([]*Term, len(rl))}
+	for j, c := range rl {
+		out.C[j] = UF("spec."+sf.Name+c.Suffix, c.Sort, flat...)
+	}
+	return out
+}
+
+// opaqueCall: the spec function as an uninterpreted function of its arguments and of the heap arrays its
+// body reads (its footprint), so that it is stable across states that leave the footprint untouched.
+func (env *Env) opaqueCall(sf *SpecFunc, args []Value, specPkg *types.Package) Value {
+	eng := env.ex.eng
+	if !sf.footOK {
+		sf.footOK = true
+		sf.foot = eng.specFootprint(sf)
+	}
+	var flat []*Term
+	for i, a := range args {
+		pt, err := eng.parseType(sf.Params[i].Type, specPkg)
+		if err != nil {
+			cfail("spec %s: %v", sf.Name, err)
+		}
+		if len(a.C) != len(layout(pt)) {
+			cfail("spec %s: argument %d has the wrong shape (%s for %s)", sf.Name, i, typeStr(a.T), sf.Params[i].Type)
+		}
+		flat = append(flat, a.C...)
+	}
+	for _, k := range sf.foot {
+		if strings.HasPrefix(k, "G:") && eng.immutableGlobal[k] {
+			continue
+		}
+		flat = append(flat, env.st.heap.Get(k, keySortReg[k]))
+	}
+	rt, err := eng.parseType(sf.Ret, specPkg)
+	if err != nil {
+		cfail("spec %s: %v", sf.Name, err)
 	}
 	rl := layout(rt)
 	out := Value{T: rt, C: make([]*Term, len(rl))}
@@ -1044,27 +1181,57 @@ func (env *Env) pureInline(fn *ssa.Function, args []Value, e *Expr) Value {
 			cfail("%s: argument %d of %s has the wrong shape", e, i, fn.Name())
 		}
 	}
-	st := env.st.clone()
-	st.pc = True
+	base := env.st
+	for _, a := range args {
+		if a.St != nil {
+			base = a.St
+		}
+	}
+	key := specCallKey(fn, args, base)
+	if m, ok := ex.specMemo[key]; ok {
+		return m
+	}
+	st := base.clone()
 	savedObl := len(ex.obligations)
 	savedSafety := ex.safety
 	ex.safety = false
 	ex.inSpec++
-	fr := &Frame{fn: fn, regs: map[ssa.Value]Value{}, params: map[*ssa.Parameter]Value{}, freeVars: map[*ssa.FreeVar]Value{}, callOrd: map[string]int{}, depth: 1, entry: st}
-	for i, p := range fn.Params {
-		fr.params[p] = args[i]
-	}
-	fr.args = args
-	vals, _ := ex.execBody(fr, st)
+	fr := &Frame{fn: nil, regs: map[ssa.Value]Value{}, params: map[*ssa.Parameter]Value{}, freeVars: map[*ssa.FreeVar]Value{}, callOrd: map[string]int{}, depth: 0, entry: st}
+	saved := struct{ a, i, u map[string]bool }{ex.abstracted, ex.inlined, ex.usedContr}
+	ex.abstracted, ex.inlined, ex.usedContr = map[string]bool{}, map[string]bool{}, map[string]bool{}
+	pushFreshScope(key)
+	res := ex.callFunc(fr, st, fn, nil, args, nil, "spec")
+	popFreshScope()
+	ex.abstracted, ex.inlined, ex.usedContr = saved.a, saved.i, saved.u
 	ex.inSpec--
 	ex.safety = savedSafety
 	ex.obligations = ex.obligations[:savedObl]
-	if len(vals) == 1 {
-		return vals[0]
+	// objects created by the call live in st: selectors applied to the result read them there
+	res.St = st
+	ex.specMemo[key] = res
+	return res
+}
+
+// specCallKey identifies a specification-level call: same function, same argument terms, same heap.
+func specCallKey(fn *ssa.Function, args []Value, st *State) string {
+	var sb strings.Builder
+	sb.WriteString(fn.String())
+	for _, a := range args {
+		sb.WriteByte('|')
+		for _, c := range a.C {
+			fmt.Fprintf(&sb, "%d,", c.id)
+		}
 	}
-	var cs []*Term
-	for _, v := range vals {
-		cs = append(cs, v.C...)
+	fmt.Fprintf(&sb, "|wm%d|b%d", st.wm.id, st.heap.base.id)
+	ks := make([]string, 0, len(st.heap.m))
+	for k := range st.heap.m {
+		ks = append(ks, k)
 	}
-	return Value{T: fn.Signature.Results(), C: cs}
+	sort.Strings(ks)
+	for _, k := range ks {
+		fmt.Fprintf(&sb, "|%s=%d", k, st.heap.m[k].id)
+	}
+	h := fnv.New64a()
+	h.Write([]byte(sb.String()))
+	return fmt.Sprintf("%s.%x", fn.Name(), h.Sum64())
 }
